@@ -109,9 +109,117 @@ let repaired =
   (Array.length Sys.argv > 1 && Sys.argv.(1) = "repaired") ||
   (match Sys.getenv_opt "C18_MODEL" with Some "repaired" -> true | _ -> false)
 
+(* ---------- "re-indexes by merged developer identity": the identity table must group exactly the identities that
+   are connected by shared names / e-mails.  Two independent judges:
+   (a) the executable statements of C16 (coq/theories/Plumbing/IdentityMerge.v: mtotal_okb, mcomponents_okb,
+       munion_okb, proved sound in C16_oracle_*_sound), extracted into this driver, for up to 100 identities;
+   (b) a union-find over the parts written here, for every size.
+   Both only inside the domain where every part occurs in at most one entry of each list (outside: finding F7 of C16). *)
+let parts_of (s : string) = String.split_on_char '|' s
+
+let list_domain (rd : string list) : bool =
+  let seen = Hashtbl.create 64 in
+  List.for_all (fun s ->
+      let ps = List.sort_uniq compare (parts_of s) in
+      List.for_all (fun p -> if Hashtbl.mem seen p then false else (Hashtbl.add seen p (); true)) ps) rd
+
+let components_judge (rd1 : string list) (rd2 : string list) (tab : (string * int) list) (merged : string list) : string option =
+  let parent : (string, string) Hashtbl.t = Hashtbl.create 64 in
+  let rec find p = match Hashtbl.find_opt parent p with
+    | None -> Hashtbl.add parent p p; p
+    | Some q -> if q = p then p else begin let r = find q in Hashtbl.replace parent p r; r end in
+  let union a b = let ra = find a and rb = find b in if ra <> rb then Hashtbl.replace parent ra rb in
+  let ids = rd1 @ rd2 in
+  List.iter (fun s -> match parts_of s with [] -> () | p :: r -> ignore (find p); List.iter (union p) r) ids;
+  let finals = Hashtbl.create 64 in
+  List.iter (fun (k, f) -> Hashtbl.replace finals k f) tab;
+  let comp_final : (string, int * string) Hashtbl.t = Hashtbl.create 64 in
+  let final_comp : (int, string * string) Hashtbl.t = Hashtbl.create 64 in
+  let bad = ref None in
+  let nm = List.length merged in
+  List.iter (fun s ->
+      if !bad = None then
+        match Hashtbl.find_opt finals s with
+        | None -> bad := Some (Printf.sprintf "identity %S has no merged index" s)
+        | Some f when f < 0 || f >= nm -> bad := Some (Printf.sprintf "identity %S has the merged index %d, outside the merged list of %d" s f nm)
+        | Some f ->
+            let comp = find (List.hd (parts_of s)) in
+            (match Hashtbl.find_opt comp_final comp with
+             | Some (f', s') when f' <> f ->
+                 bad := Some (Printf.sprintf "identities %S and %S are connected by shared names / e-mails but are sent to the merged developers %d and %d: one developer comes out as two" s' s f' f)
+             | Some _ -> ()
+             | None -> Hashtbl.add comp_final comp (f, s));
+            (match Hashtbl.find_opt final_comp f with
+             | Some (comp', s') when comp' <> comp && !bad = None ->
+                 bad := Some (Printf.sprintf "identities %S and %S share no name or e-mail, even transitively, but are both sent to the merged developer %d" s' s f)
+             | Some _ -> ()
+             | None -> Hashtbl.add final_comp f (comp, s))) ids;
+  (* every merged identity lists exactly the parts of its members *)
+  if !bad = None then begin
+    let want : (int, string list) Hashtbl.t = Hashtbl.create 64 in
+    List.iter (fun s -> let f = Hashtbl.find finals s in
+                Hashtbl.replace want f (parts_of s @ (try Hashtbl.find want f with Not_found -> []))) ids;
+    List.iteri (fun w m ->
+        if !bad = None then begin
+          let got = List.sort_uniq compare (parts_of m) in
+          let exp = List.sort_uniq compare (try Hashtbl.find want w with Not_found -> []) in
+          if got <> exp then
+            bad := Some (Printf.sprintf "merged developer %d is described as %S but its members have the parts %S" w m (String.concat "|" exp))
+        end) merged
+  end;
+  !bad
+
+let judge_identity_table id (an : string) (rd1 : z list list) (rd2 : z list list) (people : table) (merged : z list list) =
+  let s1 = List.map string_of_name rd1 and s2 = List.map string_of_name rd2 in
+  if not (list_domain s1 && list_domain s2) then count "idtab_outside_domain_F7"
+  else begin
+    count "idtab_judged";
+    let clause = an ^ ": re-indexing by merged developer identity: the identity table MergeResults works with (identity.MergeReversedDictsIdentities) does not group exactly the input identities that are connected by shared names / e-mails: " in
+    let tab = List.map (fun (k, e) -> (string_of_name k, int_of_z e.final)) people in
+    let failed = ref false in
+    (match components_judge s1 s2 tab (List.map string_of_name merged) with
+     | Some what -> failed := true; propfail id (clause ^ what)
+     | None -> ());
+    if List.length rd1 + List.length rd2 <= 100 then begin
+      count "idtab_judged_by_C16_oracles";
+      let idx = List.map (fun (k, e) -> (k, ((e.final, e.first), e.second))) people in
+      if not !failed then begin
+        if not (merge_domb rd1 rd2) then mismatch id "identity table: the driver's domain test and merge_domb disagree"
+        else if not (mtotal_okb rd1 rd2 idx merged) then
+          propfail id (clause ^ "mtotal_okb (C16) fails: an input identity has no merged index or one out of range")
+        else if not (mcomponents_okb rd1 rd2 idx) then
+          propfail id (clause ^ "mcomponents_okb (C16) fails: same merged index is not equivalent to being connected")
+        else if not (munion_okb rd1 rd2 idx merged) then
+          propfail id (clause ^ "munion_okb (C16) fails: a merged description is not the union of its members' parts")
+      end
+    end
+  end
+
+(* ---------- where a merged coupling matrix differs from the sums by name (report only; the verdict is the oracle's) *)
+let describe_matrix_by_key (what : string) (key1 : int -> string) (key2 : int -> string) (keyo : int -> string)
+    (m1 : row list) (m2 : row list) (out : row list) : string =
+  let want : (string * string, int) Hashtbl.t = Hashtbl.create 1024 in
+  let add key rows = List.iteri (fun i r -> List.iter (fun (c, v) ->
+      let k = (key i, key (int_of_z c)) in
+      Hashtbl.replace want k (int_of_z v + (try Hashtbl.find want k with Not_found -> 0))) r) rows in
+  add key1 m1; add key2 m2;
+  let got : (string * string, int) Hashtbl.t = Hashtbl.create 1024 in
+  List.iteri (fun i r -> List.iter (fun (c, v) ->
+      let k = (keyo i, keyo (int_of_z c)) in
+      Hashtbl.replace got k (int_of_z v + (try Hashtbl.find got k with Not_found -> 0))) r) out;
+  let diffs = ref [] in
+  Hashtbl.iter (fun k v -> let g = (try Hashtbl.find got k with Not_found -> 0) in if g <> v then diffs := (k, v, g) :: !diffs) want;
+  Hashtbl.iter (fun k g -> if not (Hashtbl.mem want k) && g <> 0 then diffs := (k, 0, g) :: !diffs) got;
+  match List.sort compare !diffs with
+  | [] -> ""
+  | ((a, b), v, g) :: _ as l ->
+      Printf.sprintf " [%s: %d cell(s) differ, e.g. (%s, %s): the inputs add up to %d, the merged result has %d]" what (List.length l) a b v g
+
 let () =
   iter_cases (fun id c ->
     let an = atom (List.hd (args (field "an" c))) in
+    let fast = (match field_opt "fam" c with Some _ -> true | None -> false) in
+    if fast then count "scale_cases";
     let obs = field "obs" c in
     let out = List.hd (args (field "out" obs)) in
     let c1 = common_of_sx (field "c1" c) and c2 = common_of_sx (field "c2" c) in
@@ -131,6 +239,7 @@ let () =
     | _ ->
         let (people, merged) = table_of_sx (field "idtab" obs) in
         let r1s = List.hd (args (field "r1" c)) and r2s = List.hd (args (field "r2" c)) in
+        judge_identity_table id an (names_of (field "people" r1s)) (names_of (field "people" r2s)) people merged;
         (match an with
          | "devs" ->
              let r1 = devs_of_sx r1s and r2 = devs_of_sx r2s in
@@ -143,7 +252,7 @@ let () =
                       | Ok p -> p | _ -> failwith "offsets") in
                   if List.map string_of_name gd.dr_people <> List.map string_of_name merged then
                     propfail id "devs: the merged developer list is not the merged identity list"
-                  else if not (dv_conserve_b people merged r1 r2 o1 o2 gd) then
+                  else if not ((if fast then dv_conserve_fast_b else dv_conserve_b) people merged r1 r2 o1 o2 gd) then
                     propfail id "devs: a figure of the merged result is not the sum of the inputs per aligned tick and merged developer (or a total differs)";
                   if canon_devs gd <> canon_devs md then mismatch id "devs: merged result differs from the model")
          | "couples" ->
@@ -164,8 +273,15 @@ let () =
                    | _ -> mismatch id "couples: no file table");
                   if List.map string_of_name gc.cr_people <> List.map string_of_name merged then
                     propfail id "couples: the merged developer list is not the merged identity list"
-                  else if not (cp_sum_b people merged r1 r2 gc) then
-                    propfail id "couples: a matrix cell, a line count or a developer's file set of the merged result is not the sum/union of the inputs re-indexed by file name and merged identity";
+                  else if not ((if fast then cp_sum_fast_b else cp_sum_b) people merged r1 r2 gc) then begin
+                    let nth_name l i = (try string_of_name (List.nth l i) with _ -> Printf.sprintf "<index %d>" i) in
+                    let dev rd i = if i >= List.length rd then "<unmatched developer>"
+                      else (try string_of_name (List.nth merged (int_of_z (List.assoc (List.nth rd i) people).final)) with _ -> Printf.sprintf "<developer %d>" i) in
+                    let devo i = if i >= List.length merged then "<unmatched developer>" else nth_name merged i in
+                    propfail id ("couples: a matrix cell, a line count or a developer's file set of the merged result is not the sum/union of the inputs re-indexed by file name and merged identity"
+                      ^ describe_matrix_by_key "FilesMatrix by file name" (nth_name r1.cr_files) (nth_name r2.cr_files) (nth_name gc.cr_files) r1.cr_fm r2.cr_fm gc.cr_fm
+                      ^ describe_matrix_by_key "PeopleMatrix by merged developer" (dev r1.cr_people) (dev r2.cr_people) devo r1.cr_pm r2.cr_pm gc.cr_pm)
+                  end;
                   if canon_couples gc <> canon_couples mc then mismatch id "couples: merged result differs from the model")
          | "burndown" ->
              let r1 = burndown_of_sx r1s and r2 = burndown_of_sx r2s in
